@@ -15,6 +15,7 @@ import os, sys, json, time, hashlib, traceback, signal, random, importlib, zlib,
 import multiprocessing as mp
 
 VERIF_DIR = os.path.dirname(os.path.dirname(os.path.abspath(__file__)))
+OUT_DIR = os.environ.get("VERIF_OUT_DIR", VERIF_DIR)   # mutant / scratch runs write evidence and replays elsewhere
 REPO = os.environ.get("MOUETTE_REPO", "/repo")
 if REPO not in sys.path:
     sys.path.insert(0, REPO)
@@ -422,17 +423,17 @@ def _shard_entry(args):
 
 
 def write_replay(viol):
-    os.makedirs(os.path.join(VERIF_DIR, "replays"), exist_ok=True)
+    os.makedirs(os.path.join(OUT_DIR, "replays"), exist_ok=True)
     js = json.dumps(viol, sort_keys=True, indent=1)
     h = hashlib.sha1(js.encode()).hexdigest()[:10]
     rel = os.path.join("replays", f"{viol['property']}-{viol['sub_check']}-{h}.json")
-    with open(os.path.join(VERIF_DIR, rel), "w") as f:
+    with open(os.path.join(OUT_DIR, rel), "w") as f:
         f.write(js)
     return rel
 
 
 def write_evidence(prop, tier, seed, mod, stats, wall, n_viol, shards, extra=None):
-    os.makedirs(os.path.join(VERIF_DIR, "evidence"), exist_ok=True)
+    os.makedirs(os.path.join(OUT_DIR, "evidence"), exist_ok=True)
     cov = {
         "evaluations": stats.evaluations,
         "distinct_nontrivial": len(stats.nontrivial),
@@ -452,7 +453,7 @@ def write_evidence(prop, tier, seed, mod, stats, wall, n_viol, shards, extra=Non
         cov.update(extra)
     ev = {"property_id": prop, "tier": tier, "seed": seed, "level": "exploration", "coverage": cov,
           "assumptions": getattr(mod, "ASSUMPTIONS", []), "wall_s": round(wall, 2), "violations": n_viol}
-    with open(os.path.join(VERIF_DIR, "evidence", prop + ".json"), "w") as f:
+    with open(os.path.join(OUT_DIR, "evidence", prop + ".json"), "w") as f:
         json.dump(ev, f, indent=1, sort_keys=True)
 
 
@@ -470,7 +471,7 @@ def main_check(prop, tier, only=None, nshards=None, scale=1.0):
             return 2
     open_f, fixed_f = load_known_findings(prop)
     if tier == "quick":
-        nshards = nshards or int(os.environ.get("VERIF_QUICK_SHARDS", "4"))
+        nshards = nshards or int(os.environ.get("VERIF_QUICK_SHARDS", "8"))
     else:
         nshards = nshards or int(os.environ.get("VERIF_SHARDS", "16"))
     # every shard runs the full per-sub-check budget divided by the number of quick shards, so that
@@ -580,8 +581,11 @@ def main_collect(prop, tier="quick", only=None, seeds=4):
             settings(max_examples=n, deadline=None, database=None, suppress_health_check=list(HealthCheck),
                      phases=[Phase.generate])(given(sc.strategy)(test)))
         wrapped()
+    os.makedirs("/tmp/collect", exist_ok=True)
     for k, b in sorted(buckets.items(), key=lambda kv: str(kv[0])):
-        print("BUCKET", k, "count", b["n"], "smallest", b["size"])
+        fn = "/tmp/collect/" + prop + "-" + hashlib.sha1(str(k).encode()).hexdigest()[:8] + ".json"
+        json.dump({"property": prop, "sub_check": k[0], "signature": k[1], "message": b["msg"], "case": b["case"], "tier": tier}, open(fn, "w"))
+        print("BUCKET", k, "count", b["n"], "smallest", b["size"], "->", fn)
         print("   ", b["msg"][:300])
         print("   ", json.dumps(b["case"])[:600])
     print("evaluations", stats.evaluations, "nontrivial", len(stats.nontrivial), "inconclusive", stats.inconclusive)
